@@ -32,7 +32,9 @@ def distinct(e):
 def run(ctx):
     T = ctx.thorough
     ctx.tlc_mc("MC_ACL", "MC_ACL_big.cfg" if T else "MC_ACL.cfg", coverage=T, timeout=1500)
-    muts = ["KeyNoPort", "SuffixNoDot", "PortHi"] + (["KeyNoProto", "KeyNoV6"] if T else [])
+    if T:
+        ctx.tlc_mc("MC_ACL", "MC_ACL_big3.cfg", timeout=1500)   # three-rule lists (rule-order interactions)
+    muts = ["KeyNoPort", "SuffixNoDot"] + (["PortHi", "KeyNoProto", "KeyNoV6"] if T else [])
     for m in muts:
         ctx.tlc_mc("MC_ACL", "MC_ACL_mut%s.cfg" % m, expect_violation=True)
     scns = ctx.tlc_gen("MC_ACL", "Gen_ACL.cfg", num=1500 if T else 150, depth=14)
